@@ -5,7 +5,7 @@ CONSTANTS
   Kind = "nameaddr"
   Atoms <- AtomsPoss
   Prefix <- PfxNone
-  MaxLen = 5
+  MaxLen = 6
   Cfgs <- CfgsNA18
   Junk = 34
   EmitOn = TRUE
